@@ -200,7 +200,38 @@ pub struct Stream {
     pub interesting: Vec<usize>,
 }
 
+/// Episode numbers from here on use the burst stream: eight method calls (E11).
+pub const BURST: u64 = 1 << 40;
+pub const BURST_CALLS: usize = 8;
+
+fn stream_burst(ep: u64) -> Stream {
+    let n = ep - BURST;
+    let mut bytes = Vec::new();
+    let mut boundaries = Vec::new();
+    let mut request_ids = Vec::new();
+    let mut calls = Vec::new();
+    for i in 0..BURST_CALLS as u64 {
+        let id = if i % 2 == 0 { json!(1_000_000 + n * 100 + i) } else { json!(format!("burst-{}-{}", n, i)) };
+        let p = json!({"text": format!("réponse {} 😀", i), "i": i, "ep": n});
+        let m = json!({"jsonrpc":"2.0","id":id,"method":"echo","params":p});
+        bytes.extend(frame(&m, i == 3));
+        boundaries.push(bytes.len());
+        request_ids.push(id);
+        calls.push(("method".to_string(), p));
+    }
+    Stream {
+        bytes,
+        boundaries,
+        request_ids,
+        calls,
+        interesting: Vec::new(),
+    }
+}
+
 pub fn stream(ep: u64) -> Stream {
+    if ep >= BURST {
+        return stream_burst(ep);
+    }
     let id1 = json!(17 + ep * 10);
     let id2 = json!(format!("abc-é€-{}", ep));
     let id3 = json!(18 + ep * 10);
@@ -978,6 +1009,41 @@ pub fn run(thorough: bool, _threads: usize, name: &'static str) -> JobResult {
             pick_bases.extend(eps.iter().cloned());
         }
         run_set("E8 output pipe blocked from some step until the end", &mut eps.into_iter(), logging, &mut shared, &mut result, &mut outcomes);
+    }
+    // E11: a burst of eight method calls whose handlers all finish while the node is not draining the output pipe:
+    // more replies queue behind the blocked writer than the plugin's reply channel holds (a reply may wait, it may
+    // not be lost); the writer is blocked after j = 0..3 completions, completions in three orders
+    {
+        let mut eps: Vec<Episode> = Vec::new();
+        let n = BURST_CALLS;
+        let orders: Vec<Vec<usize>> = vec![(0..n).collect(), (0..n).rev().collect(), (0..n).map(|i| (i * 3) % n).collect()];
+        for order in &orders {
+            for block_after in 0..4usize {
+                let ep = BURST + next_ep();
+                let st = stream(ep);
+                let mut steps = Vec::new();
+                for i in 0..n {
+                    let a = if i == 0 { 0 } else { st.boundaries[i - 1] };
+                    steps.push(Step::Feed(a, st.boundaries[i]));
+                }
+                for (j, k) in order.iter().enumerate() {
+                    if j == block_after {
+                        steps.push(Step::BlockWriter);
+                    }
+                    steps.push(Step::Complete(*k));
+                }
+                steps.push(Step::ReleaseWriter);
+                steps.push(Step::CompleteAll);
+                eps.push(Episode {
+                    ep,
+                    steps,
+                    writer_modes: Vec::new(),
+                    pick: None,
+                    park: None,
+                });
+            }
+        }
+        run_set("E11 eight replies queue behind a blocked output pipe", &mut eps.into_iter(), logging, &mut shared, &mut result, &mut outcomes);
     }
     // E10: the plugin runs on a multi-threaded runtime, so whenever several of its tasks (driver, handlers, writers)
     // are runnable any of them may go first: every single departure from first-in-first-out, at every such moment
